@@ -45,8 +45,8 @@ impl FromBytes for SerializedTlvStream {
         //let mut b: bytes::Bytes = r.into();
         let mut entries: Vec<TlvEntry> = vec![];
         while b.remaining() >= 2 {
-            let typ = b.get_compact_size();
-            let len = b.get_compact_size() as usize;
+            let typ = b.try_get_compact_size()?;
+            let len = b.try_get_compact_size()? as usize;
             if b.remaining() < len {
                 return Err(anyhow!(
                     "trying to advance {}, but remaining length is {}",
@@ -77,6 +77,26 @@ pub trait ProtoBuf: Buf {
             255 => self.get_u64(),
             v => v.into(),
         }
+    }
+
+    /// Like `get_compact_size`, but returns an error instead of panicking if
+    /// the buffer ends before the compact size does.
+    fn try_get_compact_size(&mut self) -> Result<CompactSize, anyhow::Error> {
+        let needed = match self.chunk().first() {
+            Some(253) => 3,
+            Some(254) => 5,
+            Some(255) => 9,
+            Some(_) => 1,
+            None => return Err(anyhow!("unexpected end of buffer reading compact size")),
+        };
+        if self.remaining() < needed {
+            return Err(anyhow!(
+                "truncated compact size: need {} bytes, but remaining length is {}",
+                needed,
+                self.remaining()
+            ));
+        }
+        Ok(self.get_compact_size())
     }
 
     fn get_tu64(&mut self) -> Result<TU64, anyhow::Error> {
@@ -170,7 +190,7 @@ impl TryFrom<Vec<u8>> for SerializedTlvStream {
             });
         }
         // Skip the length prefix
-        let l = b.get_compact_size();
+        let l = b.try_get_compact_size()?;
         let b = b.take(l as usize); // Protect against overruns
 
         Self::from_bytes(b.into_inner())
